@@ -467,26 +467,62 @@ theorem composeSshMpint_nonneg (v : Nat) :
       simp only [hpad, if_neg hx]
       exact ssh_assemble [] (x :: t)
 
-/-! ### negative values: two's complement over `bitLength v / 8 + 1` bytes -/
+/-! ### negative values: two's complement over `bitLength (-v - 1) / 8 + 1` bytes -/
 
-theorem neg_two_mul_lt (v : Int) : 2 * v.natAbs < 256 ^ (bitLength v / 8 + 1) := by
-  have h1 := lt_two_pow_bitLength v
-  have h2 : bitLength v + 1 ≤ 8 * (bitLength v / 8 + 1) := by omega
-  have h3 : 2 ^ (bitLength v + 1) ≤ 2 ^ (8 * (bitLength v / 8 + 1)) :=
+theorem bitLength_eq_natAbs (v : Int) : bitLength v = bitLength (v.natAbs : Int) := by
+  unfold bitLength
+  by_cases h : v = 0
+  · subst h; rfl
+  · have h' : ¬ ((v.natAbs : Nat) : Int) = 0 := by omega
+    rw [if_neg h, if_neg h', Int.natAbs_natCast]
+
+/-- `bit_length` of any integer is at most `m` exactly when its magnitude is below `2^m`. -/
+theorem bitLength_le_iff (v : Int) (m : Nat) : bitLength v ≤ m ↔ v.natAbs < 2 ^ m := by
+  rw [bitLength_eq_natAbs]; exact bitLength_natCast_le_iff _ _
+
+/-- `~v = -v - 1` of a negative integer is the natural number `|v| - 1`. -/
+theorem neg_pred_eq (v : Int) (hv : v < 0) : -v - 1 = ((v.natAbs - 1 : Nat) : Int) := by omega
+
+/-- A negative `v` fits the two's complement range of `L = bit_length(~v) / 8 + 1` bytes … -/
+theorem neg_two_mul_le (v : Int) (hv : v < 0) : 2 * v.natAbs ≤ 256 ^ (bitLength (-v - 1) / 8 + 1) := by
+  rw [neg_pred_eq v hv]
+  generalize hu : v.natAbs - 1 = u
+  have h1 := lt_two_pow_bitLength (u : Int)
+  rw [Int.natAbs_natCast] at h1
+  have h2 : bitLength (u : Int) + 1 ≤ 8 * (bitLength (u : Int) / 8 + 1) := by omega
+  have h3 : 2 ^ (bitLength (u : Int) + 1) ≤ 2 ^ (8 * (bitLength (u : Int) / 8 + 1)) :=
     Nat.pow_le_pow_right (by decide) h2
   rw [pow_256_eq]
   rw [Nat.pow_succ] at h3
   omega
 
+/-- … and does not fit one byte less: `L` is the least such length. -/
+theorem neg_two_mul_gt (v : Int) (hv : v < 0) : 256 ^ (bitLength (-v - 1) / 8) < 2 * v.natAbs := by
+  rw [neg_pred_eq v hv]
+  generalize hu : v.natAbs - 1 = u
+  by_cases h0 : u = 0
+  · subst h0
+    have : bitLength ((0 : Nat) : Int) = 0 := rfl
+    rw [this]
+    simp
+    omega
+  · have h1 := two_pow_bitLength_le (u : Int) (by omega)
+    rw [Int.natAbs_natCast] at h1
+    have h2 : 8 * (bitLength (u : Int) / 8) ≤ bitLength (u : Int) := by omega
+    have h3 : 2 ^ (8 * (bitLength (u : Int) / 8)) ≤ 2 ^ bitLength (u : Int) :=
+      Nat.pow_le_pow_right (by decide) h2
+    rw [pow_256_eq]
+    omega
+
 /-- What `compose_ssh_mpint` produces for a negative value: no padding byte, and the
-`L = bitLength v / 8 + 1` byte two's complement of `v`, whose top bit is set. -/
-theorem composeSshMpint_neg (v : Int) (hv : v < 0) (L : Nat) (hL : L = bitLength v / 8 + 1) :
+`L = bitLength (-v - 1) / 8 + 1` byte two's complement of `v`, whose top bit is set. -/
+theorem composeSshMpint_neg (v : Int) (hv : v < 0) (L : Nat) (hL : L = bitLength (-v - 1) / 8 + 1) :
     ∃ x t, beBytes L (256 ^ L - v.natAbs) = x :: t ∧ 128 ≤ x.toNat ∧
       composeSshMpint v =
         (composeNum .network 4 (L : Nat)).map (fun h => h ++ beBytes L (256 ^ L - v.natAbs)) := by
-  have hb := neg_two_mul_lt v
+  have hb := neg_two_mul_le v hv
   rw [← hL] at hb
-  have hbl : bitLength v / 8 * 8 + 8 = 8 * L := by omega
+  have hbl : bitLength (-v - 1) / 8 * 8 + 8 = 8 * L := by omega
   have hLpos : 1 ≤ L := by omega
   -- the adjusted positive value
   have hpos : (((2 : Int) ^ (8 * L)) + v).toNat = 256 ^ L - v.natAbs := by
@@ -625,6 +661,438 @@ theorem minBytesBE_unique (b : Bytes) (h : ∀ x t, b = x :: t → x ≠ 0) :
   have h3 := strip_beBytes (k := b.length) (natOfBE_lt b)
   rw [h2, h1] at h3
   exact h3
+
+/-! ### the shortest two's complement of the specification (`Spec.sshMpintBody`, any integer) -/
+
+theorem fitsSigned_mono {v : Int} {L L' : Nat} (h : Spec.FitsSigned v L) (hl : L ≤ L') :
+    Spec.FitsSigned v L' := by
+  have := Nat.pow_le_pow_right (n := 256) (by decide) hl
+  unfold Spec.FitsSigned at *
+  omega
+
+theorem not_fits_bound {v : Int} {L : Nat} (h : ¬ Spec.FitsSigned v L) : 256 ^ L ≤ 2 * v.natAbs := by
+  unfold Spec.FitsSigned at h
+  omega
+
+theorem minSignedLenAux_eq (v : Int) (L : Nat) (hfit : Spec.FitsSigned v L) :
+    ∀ fuel start, start ≤ L → L - start < fuel →
+      (∀ L', start ≤ L' → L' < L → ¬ Spec.FitsSigned v L') →
+      Spec.minSignedLenAux fuel start v = L := by
+  intro fuel
+  induction fuel with
+  | zero => intro start _ h; omega
+  | succ f ih =>
+    intro start hs hf hmin
+    simp only [Spec.minSignedLenAux]
+    by_cases he : start = L
+    · subst he; rw [if_pos hfit]
+    · rw [if_neg (hmin start (Nat.le_refl _) (by omega))]
+      exact ih (start + 1) (by omega) (by omega) (fun L' h1 h2 => hmin L' (by omega) h2)
+
+/-- The bounded search of the specification finds the least fitting length, whenever one exists. -/
+theorem minSignedLen_eq {v : Int} {L : Nat} (hfit : Spec.FitsSigned v L)
+    (hmin : ∀ L', L' < L → ¬ Spec.FitsSigned v L') : Spec.minSignedLen v = L := by
+  unfold Spec.minSignedLen
+  apply minSignedLenAux_eq v L hfit _ 0 (Nat.zero_le _) _ (fun L' _ h => hmin L' h)
+  cases L with
+  | zero => omega
+  | succ k =>
+    have h1 := not_fits_bound (hmin k (by omega))
+    have h2 : k < 256 ^ k := Nat.lt_pow_self (by decide)
+    omega
+
+theorem minSignedLen_neg (v : Int) (hv : v < 0) :
+    Spec.minSignedLen v = bitLength (-v - 1) / 8 + 1 := by
+  have h1 := neg_two_mul_le v hv
+  have h2 := neg_two_mul_gt v hv
+  apply minSignedLen_eq
+  · have : 0 < 256 ^ (bitLength (-v - 1) / 8 + 1) := Nat.pow_pos (by decide)
+    unfold Spec.FitsSigned
+    omega
+  · intro L' hl hf
+    have hf' := fitsSigned_mono hf (show L' ≤ bitLength (-v - 1) / 8 by omega)
+    unfold Spec.FitsSigned at hf'
+    omega
+
+theorem minSignedLen_nonneg (v : Nat) :
+    Spec.minSignedLen (v : Int) = (Spec.sshMpintBodyNonneg v).length := by
+  apply minSignedLen_eq
+  · have := (sshBody_length_le_iff v _).mp (Nat.le_refl (Spec.sshMpintBodyNonneg v).length)
+    unfold Spec.FitsSigned
+    omega
+  · intro L' hl hf
+    have : 2 * v < 256 ^ L' := by unfold Spec.FitsSigned at hf; omega
+    have := (sshBody_length_le_iff v L').mpr this
+    omega
+
+/-- `Spec.minSignedLen v` is what its name says: `v` fits that many bytes and no fewer. -/
+theorem minSignedLen_spec (v : Int) :
+    Spec.FitsSigned v (Spec.minSignedLen v) ∧ ∀ L', L' < Spec.minSignedLen v → ¬ Spec.FitsSigned v L' := by
+  by_cases hv : v < 0
+  · have h1 := neg_two_mul_le v hv
+    have h2 := neg_two_mul_gt v hv
+    rw [minSignedLen_neg v hv]
+    refine ⟨?_, ?_⟩
+    · have : 0 < 256 ^ (bitLength (-v - 1) / 8 + 1) := Nat.pow_pos (by decide)
+      unfold Spec.FitsSigned
+      omega
+    · intro L' hl hf
+      have hf' := fitsSigned_mono hf (show L' ≤ bitLength (-v - 1) / 8 by omega)
+      unfold Spec.FitsSigned at hf'
+      omega
+  · have hc : v = ((v.natAbs : Nat) : Int) := by omega
+    rw [hc, minSignedLen_nonneg]
+    refine ⟨?_, ?_⟩
+    · have := (sshBody_length_le_iff v.natAbs _).mp (Nat.le_refl (Spec.sshMpintBodyNonneg v.natAbs).length)
+      unfold Spec.FitsSigned
+      omega
+    · intro L' hl hf
+      have : 2 * v.natAbs < 256 ^ L' := by unfold Spec.FitsSigned at hf; omega
+      have := (sshBody_length_le_iff v.natAbs L').mpr this
+      omega
+
+theorem minSignedLen_le {v : Int} {L : Nat} (h : Spec.FitsSigned v L) : Spec.minSignedLen v ≤ L := by
+  apply Classical.byContradiction
+  intro hn
+  exact (minSignedLen_spec v).2 L (by omega) h
+
+theorem toBytesBE_length (k v : Nat) : (Spec.toBytesBE k v).length = k := by
+  rw [← beBytes_eq_spec, beBytes_length]
+
+theorem sshMpintBody_length (v : Int) : (Spec.sshMpintBody v).length = Spec.minSignedLen v := by
+  unfold Spec.sshMpintBody Spec.twosComplementBE
+  exact toBytesBE_length _ _
+
+/-- For a non-negative integer the general form is the `00`-rule form. -/
+theorem sshMpintBody_nonneg (v : Nat) : Spec.sshMpintBody (v : Int) = Spec.sshMpintBodyNonneg v := by
+  unfold Spec.sshMpintBody Spec.twosComplementBE
+  have h0 : ¬ ((v : Int) < 0) := by omega
+  rw [if_neg h0, Int.toNat_natCast, minSignedLen_nonneg, ← beBytes_eq_spec]
+  have := beBytes_natOfBE (Spec.sshMpintBodyNonneg v)
+  rw [natOfBE_sshBody] at this
+  exact this
+
+theorem sshMpint_nonneg (v : Nat) : Spec.sshMpint (v : Int) = Spec.sshMpintNonneg v := by
+  unfold Spec.sshMpint Spec.sshMpintNonneg
+  rw [sshMpintBody_nonneg]
+
+/-- For a negative integer it is the `L = bit_length(~v) / 8 + 1` byte two's complement. -/
+theorem sshMpintBody_neg (v : Int) (hv : v < 0) :
+    Spec.sshMpintBody v = beBytes (bitLength (-v - 1) / 8 + 1)
+      (256 ^ (bitLength (-v - 1) / 8 + 1) - v.natAbs) := by
+  unfold Spec.sshMpintBody Spec.twosComplementBE
+  rw [if_pos hv, minSignedLen_neg v hv, ← beBytes_eq_spec]
+  congr 1
+  omega
+
+/-- The model composer on EVERY integer: the `uint32` length of the specification's shortest two's
+complement, then those bytes (an error only when the length does not fit the `uint32`). -/
+theorem composeSshMpint_eq_spec (v : Int) :
+    composeSshMpint v =
+      (composeNum .network 4 ((Spec.sshMpintBody v).length : Nat)).map
+        (fun h => h ++ Spec.sshMpintBody v) := by
+  by_cases hv : v < 0
+  · obtain ⟨x, t, _, _, hc⟩ := composeSshMpint_neg v hv _ rfl
+    rw [hc, sshMpintBody_neg v hv, beBytes_length]
+  · have hc : v = ((v.natAbs : Nat) : Int) := by omega
+    rw [hc, composeSshMpint_nonneg, sshMpintBody_nonneg]
+
+/-! ### the integer denoted by `mpint` data bytes -/
+
+theorem fromBytesSigned_nil : Spec.fromBytesSigned [] = 0 := rfl
+
+theorem fromBytesSigned_cons (x : UInt8) (t : Bytes) :
+    Spec.fromBytesSigned (x :: t) =
+      if 128 ≤ x.toNat then (natOfBE (x :: t) : Int) - ((256 ^ (x :: t).length : Nat) : Int)
+      else (natOfBE (x :: t) : Int) := rfl
+
+theorem fromBytesSigned_cons_eq (b : Bytes) (x : UInt8) (t : Bytes) (hb : b = x :: t) :
+    Spec.fromBytesSigned b =
+      if 128 ≤ x.toNat then (natOfBE b : Int) - ((256 ^ b.length : Nat) : Int) else (natOfBE b : Int) := by
+  subst hb; rfl
+
+/-- The value of `L` data bytes lies in the `L`-byte two's complement range. -/
+theorem fromBytesSigned_fits (b : Bytes) : Spec.FitsSigned (Spec.fromBytesSigned b) b.length := by
+  cases b with
+  | nil => unfold Spec.FitsSigned; simp [fromBytesSigned_nil]
+  | cons x t =>
+    have hh := head_ge_iff x t
+    have hlt := natOfBE_lt (x :: t)
+    rw [fromBytesSigned_cons]
+    unfold Spec.FitsSigned
+    split
+    · next hx => have := hh.mp hx; omega
+    · next hx =>
+      have : ¬ (256 ^ (x :: t).length ≤ 2 * natOfBE (x :: t)) := fun h => hx (hh.mpr h)
+      omega
+
+/-- The sign is the top bit of the first byte. -/
+theorem fromBytesSigned_neg_iff (x : UInt8) (t : Bytes) :
+    Spec.fromBytesSigned (x :: t) < 0 ↔ 128 ≤ x.toNat := by
+  have hlt := natOfBE_lt (x :: t)
+  rw [fromBytesSigned_cons]
+  split
+  · next hx => constructor
+               · intro _; exact hx
+               · intro _; omega
+  · next hx => constructor
+               · intro h; omega
+               · intro h; exact absurd h hx
+
+/-- Byte strings of the same length that denote the same integer are equal. -/
+theorem fromBytesSigned_inj {a b : Bytes} (hl : a.length = b.length)
+    (hv : Spec.fromBytesSigned a = Spec.fromBytesSigned b) : a = b := by
+  have key : natOfBE a = natOfBE b := by
+    cases a with
+    | nil =>
+      cases b with
+      | nil => rfl
+      | cons y u => simp at hl
+    | cons x t =>
+      cases b with
+      | nil => simp at hl
+      | cons y u =>
+        have h1 := fromBytesSigned_neg_iff x t
+        have h2 := fromBytesSigned_neg_iff y u
+        rw [hv] at h1
+        have hs : 128 ≤ x.toNat ↔ 128 ≤ y.toNat := h1.symm.trans h2
+        rw [fromBytesSigned_cons, fromBytesSigned_cons, hl] at hv
+        by_cases hx : 128 ≤ x.toNat
+        · rw [if_pos hx, if_pos (hs.mp hx)] at hv; omega
+        · rw [if_neg hx, if_neg (fun h => hx (hs.mpr h))] at hv; omega
+  have h1 := beBytes_natOfBE a
+  have h2 := beBytes_natOfBE b
+  rw [key, hl] at h1
+  exact h1.symm.trans h2
+
+theorem sshMpintBody_head (v : Int) (x : UInt8) (t : Bytes) (h : Spec.sshMpintBody v = x :: t) :
+    128 ≤ x.toNat ↔ v < 0 := by
+  by_cases hv : v < 0
+  · obtain ⟨y, u, hm, hy, _⟩ := composeSshMpint_neg v hv _ rfl
+    rw [sshMpintBody_neg v hv, hm] at h
+    simp only [List.cons.injEq] at h
+    rw [← h.1]
+    exact ⟨fun _ => hv, fun _ => hy⟩
+  · have hc : v = ((v.natAbs : Nat) : Int) := by omega
+    rw [hc, sshMpintBody_nonneg] at h
+    have := sshBody_head_lt v.natAbs x t h
+    constructor
+    · intro hx; omega
+    · intro hx; exact absurd hx hv
+
+/-- The specification's data bytes denote `v`. -/
+theorem fromBytesSigned_sshMpintBody (v : Int) : Spec.fromBytesSigned (Spec.sshMpintBody v) = v := by
+  by_cases hv : v < 0
+  · have hb := neg_two_mul_le v hv
+    obtain ⟨y, u, hm, hy, _⟩ := composeSshMpint_neg v hv _ rfl
+    rw [sshMpintBody_neg v hv]
+    generalize hL : bitLength (-v - 1) / 8 + 1 = L at *
+    have hpos : 0 < 256 ^ L := Nat.pow_pos (by decide)
+    have hval := natOfBE_beBytes L (256 ^ L - v.natAbs)
+    rw [Nat.mod_eq_of_lt (by omega)] at hval
+    have hlen := beBytes_length L (256 ^ L - v.natAbs)
+    rw [hm] at hval hlen ⊢
+    rw [fromBytesSigned_cons, if_pos hy, hval, hlen]
+    omega
+  · have hc : v = ((v.natAbs : Nat) : Int) := by omega
+    rw [hc, sshMpintBody_nonneg]
+    have hval := natOfBE_sshBody v.natAbs
+    cases hm : Spec.sshMpintBodyNonneg v.natAbs with
+    | nil => rw [hm] at hval; rw [fromBytesSigned_nil]; simp at hval; omega
+    | cons x t =>
+      have := sshBody_head_lt v.natAbs x t hm
+      rw [hm] at hval
+      rw [fromBytesSigned_cons, if_neg (by omega), hval]
+
+/-- A leading `00` before data whose top bit is clear does not change the value … -/
+theorem fromBytesSigned_cons_zero (b : Bytes) (h : ∀ x t, b = x :: t → x.toNat < 128) :
+    Spec.fromBytesSigned (0 :: b) = Spec.fromBytesSigned b := by
+  have h0 : ¬ (128 ≤ (0 : UInt8).toNat) := by decide
+  rw [fromBytesSigned_cons, if_neg h0, natOfBE_cons]
+  have hz : (0 : UInt8).toNat = 0 := rfl
+  rw [hz, Nat.zero_mul, Nat.zero_add]
+  cases b with
+  | nil => rfl
+  | cons x t =>
+    have := h x t rfl
+    rw [fromBytesSigned_cons, if_neg (by omega)]
+
+/-- … and neither does a leading `ff` before data whose top bit is set. -/
+theorem fromBytesSigned_cons_ff (x : UInt8) (t : Bytes) (hx : 128 ≤ x.toNat) :
+    Spec.fromBytesSigned (0xff :: x :: t) = Spec.fromBytesSigned (x :: t) := by
+  have hf : 128 ≤ (0xff : UInt8).toNat := by decide
+  rw [fromBytesSigned_cons, if_pos hf, fromBytesSigned_cons, if_pos hx, natOfBE_cons,
+    List.length_cons (a := (0xff : UInt8)), Nat.pow_succ]
+  have hz : (0xff : UInt8).toNat = 255 := rfl
+  rw [hz]
+  omega
+
+/-- `parseSshMpint` on any SSH string: the integer its data bytes denote, with any trailing bytes. -/
+theorem parseSshMpint_string (body s : Bytes) (hl : body.length < 2 ^ 32) :
+    parseSshMpint (beBytes 4 body.length ++ (body ++ s)) =
+      .ok (Spec.fromBytesSigned body, 4 + body.length) := by
+  cases hb : body with
+  | nil =>
+    have := parseSshMpint_string_nonneg [] s (by simp) (by intro x t h; simp at h)
+    simpa [fromBytesSigned_nil] using this
+  | cons x t =>
+    rw [← hb, fromBytesSigned_cons_eq body x t hb]
+    by_cases hx : 128 ≤ x.toNat
+    · rw [if_pos hx]
+      exact parseSshMpint_string_neg body s hl x t hb hx
+    · rw [if_neg hx]
+      apply parseSshMpint_string_nonneg body s hl
+      intro y u hy
+      rw [hb] at hy
+      simp only [List.cons.injEq] at hy
+      rw [← hy.1]; omega
+
+/-- Whatever `parseSshMpint` accepts is an SSH string whose data bytes denote the returned integer. -/
+theorem parseSshMpint_ok_inv {data : Bytes} {v : Int} {n : Nat} (h : parseSshMpint data = .ok (v, n)) :
+    ∃ body rest, data = beBytes 4 body.length ++ (body ++ rest) ∧ body.length < 2 ^ 32 ∧
+      n = 4 + body.length ∧ v = Spec.fromBytesSigned body := by
+  by_cases h4 : data.length < 4
+  · simp [parseSshMpint, h4] at h
+  · by_cases hlen : data.length < 4 + beVal (data.take 4)
+    · simp [parseSshMpint, h4, hlen] at h
+    · have ht4 : (data.take 4).length = 4 := by rw [List.length_take]; omega
+      have hlt : beVal (data.take 4) < 2 ^ 32 := by
+        have := natOfBE_lt (data.take 4)
+        rw [natOfBE_eq_beVal, ht4] at this
+        exact this
+      have hbl : ((data.drop 4).take (beVal (data.take 4))).length = beVal (data.take 4) := by
+        rw [List.length_take, List.length_drop]; omega
+      have hhead : beBytes 4 ((data.drop 4).take (beVal (data.take 4))).length = data.take 4 := by
+        rw [hbl]
+        have := beBytes_beVal (data.take 4)
+        rwa [ht4] at this
+      have heq : data = beBytes 4 ((data.drop 4).take (beVal (data.take 4))).length ++
+          ((data.drop 4).take (beVal (data.take 4)) ++ (data.drop 4).drop (beVal (data.take 4))) := by
+        rw [hhead, List.take_append_drop, List.take_append_drop]
+      have hp := parseSshMpint_string ((data.drop 4).take (beVal (data.take 4)))
+        ((data.drop 4).drop (beVal (data.take 4))) (by rw [hbl]; exact hlt)
+      rw [← heq, h] at hp
+      simp only [Except.ok.injEq, Prod.mk.injEq] at hp
+      exact ⟨_, _, heq, by rw [hbl]; exact hlt, hp.2, hp.1⟩
+
+/-! ### redundant sign bytes, and the fixed-length form of a negative value -/
+
+theorem fromBytesSigned_replicate_zero (k : Nat) (b : Bytes) (h : ∀ x t, b = x :: t → x.toNat < 128) :
+    Spec.fromBytesSigned (List.replicate k (0 : UInt8) ++ b) = Spec.fromBytesSigned b := by
+  induction k with
+  | zero => rfl
+  | succ k ih =>
+    rw [List.replicate_succ, List.cons_append, fromBytesSigned_cons_zero _ ?_, ih]
+    intro x t hx
+    cases k with
+    | zero => exact h x t hx
+    | succ j =>
+      rw [List.replicate_succ, List.cons_append] at hx
+      simp only [List.cons.injEq] at hx
+      rw [← hx.1]; decide
+
+theorem fromBytesSigned_replicate_ff (k : Nat) (x : UInt8) (t : Bytes) (hx : 128 ≤ x.toNat) :
+    Spec.fromBytesSigned (List.replicate k (0xff : UInt8) ++ x :: t) = Spec.fromBytesSigned (x :: t) := by
+  induction k with
+  | zero => rfl
+  | succ k ih =>
+    rw [← ih]
+    cases k with
+    | zero => exact fromBytesSigned_cons_ff x t hx
+    | succ j =>
+      simp only [List.replicate_succ, List.cons_append]
+      exact fromBytesSigned_cons_ff 0xff _ (by decide)
+
+/-- Sign extension: `k` bytes `ff` before the `L`-byte two's complement give the `k + L` byte one. -/
+theorem beBytes_neg_pad (k L a : Nat) (h1 : 1 ≤ a) (h2 : a ≤ 256 ^ L) :
+    List.replicate k (0xff : UInt8) ++ beBytes L (256 ^ L - a) = beBytes (k + L) (256 ^ (k + L) - a) := by
+  have hpos : 0 < 256 ^ L := Nat.pow_pos (by decide)
+  have hlen : (List.replicate k (0xff : UInt8) ++ beBytes L (256 ^ L - a)).length = k + L := by simp
+  have hval : natOfBE (List.replicate k (0xff : UInt8) ++ beBytes L (256 ^ L - a)) = 256 ^ (k + L) - a := by
+    rw [natOfBE_append, beBytes_length, natOfBE_beBytes, Nat.mod_eq_of_lt (by omega), Nat.pow_add]
+    have h3 := natOfBE_replicate_ff k
+    generalize natOfBE (List.replicate k (0xff : UInt8)) = r at *
+    rw [← h3, Nat.add_mul, Nat.one_mul]
+    omega
+  have := beBytes_natOfBE (List.replicate k (0xff : UInt8) ++ beBytes L (256 ^ L - a))
+  rw [hlen, hval] at this
+  exact this.symm
+
+/-- `_compose_mpint` on a negative value, when the word count covers its two's complement: exactly
+the `L = bit_length(~v) / 8 + 1` byte two's complement (nothing to strip: its top bit is set). -/
+theorem composeMpintCore_neg (v : Int) (hv : v < 0) (words : Nat)
+    (hw : bitLength (-v - 1) / 8 + 1 ≤ 4 * words) :
+    composeMpintCore v words = beBytes (bitLength (-v - 1) / 8 + 1)
+      (256 ^ (bitLength (-v - 1) / 8 + 1) - v.natAbs) := by
+  have hb := neg_two_mul_le v hv
+  generalize hL : bitLength (-v - 1) / 8 + 1 = L at *
+  have hbl : bitLength (-v - 1) / 8 * 8 + 8 = 8 * L := by omega
+  have hpos : (((2 : Int) ^ (8 * L)) + v).toNat = 256 ^ L - v.natAbs := by
+    rw [int_pow_cast]; omega
+  have hposlt : 256 ^ L - v.natAbs < 256 ^ L := by
+    have : 0 < 256 ^ L := Nat.pow_pos (by decide)
+    omega
+  have hlen : (Spec.minBytesBE (256 ^ L - v.natAbs)).length = L := by
+    have h1 := (minBytesBE_length_le_iff _ L).mpr hposlt
+    have h2 : ¬ (Spec.minBytesBE (256 ^ L - v.natAbs)).length ≤ L - 1 := by
+      rw [minBytesBE_length_le_iff]
+      have : 256 ^ L = 256 ^ (L - 1) * 256 := by
+        rw [← Nat.pow_succ]; congr 1; omega
+      omega
+    omega
+  unfold composeMpintCore
+  simp only [hv, if_true, hbl, hpos]
+  rw [← minBytesBE_eq_beBytes hlen]
+  apply strip_beBytes
+  exact Nat.lt_of_lt_of_le hposlt (Nat.pow_le_pow_right (by decide) hw)
+
+/-- `compose_mpint(v, len)` on EVERY negative integer: the `len`-byte two's complement when
+`-2^(8 len - 1) ≤ v`, an invalid-value error otherwise. -/
+theorem composeMpint_neg (v : Int) (hv : v < 0) (len : Nat) :
+    composeMpint v len =
+      if 2 * v.natAbs ≤ 256 ^ len then .ok (beBytes len (256 ^ len - v.natAbs))
+      else .error .invalidValue := by
+  unfold composeMpint
+  by_cases hg : bitLength v > 8 * len
+  · rw [if_pos hg]
+    have h1 : ¬ (bitLength v ≤ 8 * len) := by omega
+    rw [bitLength_le_iff, ← pow_256_eq] at h1
+    rw [if_neg (by omega)]
+  · rw [if_neg hg]
+    have hlt : v.natAbs < 256 ^ len := by
+      have := (bitLength_le_iff v (8 * len)).mp (by omega)
+      rwa [← pow_256_eq] at this
+    have hlen1 : 1 ≤ len := by
+      cases len with
+      | zero => simp at hlt; omega
+      | succ j => omega
+    have hle := neg_two_mul_le v hv
+    have hgt := neg_two_mul_gt v hv
+    have hL : bitLength (-v - 1) / 8 < len + 1 := by
+      have h1 : 256 ^ (bitLength (-v - 1) / 8) < 256 ^ (len + 1) := by
+        rw [Nat.pow_succ]; omega
+      exact (Nat.pow_lt_pow_iff_right (by decide)).mp h1
+    have hcore := composeMpintCore_neg v hv len (by omega)
+    simp only [hcore, beBytes_length]
+    generalize hLL : bitLength (-v - 1) / 8 + 1 = L at *
+    by_cases hf : 2 * v.natAbs ≤ 256 ^ len
+    · have hLle : L ≤ len := by
+        apply Classical.byContradiction
+        intro hn
+        have : bitLength (-v - 1) / 8 = len := by omega
+        rw [this] at hgt
+        omega
+      rw [if_neg (by omega), if_pos hf, if_pos hv]
+      have h3 := beBytes_neg_pad (len - L) L v.natAbs (by omega) (by omega)
+      have h4 : len - L + L = len := by omega
+      rw [h4] at h3
+      rw [h3]
+    · have hLgt : len < L := by
+        apply Classical.byContradiction
+        intro hn
+        have := Nat.pow_le_pow_right (n := 256) (by decide) (show L ≤ len by omega)
+        omega
+      rw [if_pos hLgt, if_neg hf]
 
 theorem encNat_network (k v : Nat) : encNat .network k v = beBytes k v := rfl
 
